@@ -1,10 +1,12 @@
 /-
 Model of `utils/obfuscation/obfuscate.go` (`Obfuscator.ObfuscateJSON`, `obfuscateJSON`,
-`isCursorInExcludedPath`) and of the body path of the HAR collector
+`isCursorInExcludedPath`, `trimBodyPathPrefix` — as repaired by fixes/F16a.patch: exact comparison
+of the cursor with the exclusion or with the exclusion minus its `$.request.body` /
+`$.response.body` root; the former "exclusion ends with the cursor" rule is gone) and of the body path of the HAR collector
 (`api_stream_obfuscator.go`: `obfuscateBody`, `filterBodyExclusions`).  Core Lean only.
 
-Strings are `List Char` (Go strings are byte strings; every cursor is empty or starts with the
-ASCII bytes `.` / `[`, so on valid UTF-8 "byte suffix" and "character suffix" coincide).
+Strings are `List Char` (Go strings are byte strings; the code only tests equality and prefixes by the
+two ASCII roots, which agree on bytes and on code points for valid UTF-8).
 
 JSON values mirror what `fastjson` hands to the walk: numbers keep their lexeme, objects are
 *lists* of fields in document order (fastjson keeps duplicate keys).
@@ -67,12 +69,16 @@ def bodyExclusions : Side → List Str → List Str
   | .req, ex => filterBodyExclusions reqPrefix ex
   | .resp, ex => filterBodyExclusions respPrefix ex
 
-/-- `isCursorInExcludedPath`: exact member, or (cursor non-empty and) some exclusion path *ends with*
-    the cursor (`strings.HasSuffix(path, cursor)`). -/
+/-- `trimBodyPathPrefix`: `"$.request.body.user.name"` ↦ `".user.name"` (first prefix that matches, in
+    the order of `bodyPathPrefixes`; unchanged when none does). -/
+def trimBodyPathPrefix (path : Str) : Str :=
+  if reqPrefix.isPrefixOf path then path.drop reqPrefix.length
+  else if respPrefix.isPrefixOf path then path.drop respPrefix.length
+  else path
+
+/-- `isCursorInExcludedPath`: some exclusion EQUALS the cursor, as written or minus its body root. -/
 def isCursorInExcludedPath (cursor : Str) (ex : List Str) : Bool :=
-  if ex.contains cursor then true
-  else if cursor.isEmpty then false
-  else ex.any (fun path => cursor.isSuffixOf path)
+  ex.any (fun path => path == cursor || trimBodyPathPrefix path == cursor)
 
 /-- The exclusion test of the walk as a predicate on cursors. -/
 def modelExcl (ex : List Str) : Str → Bool := fun c => isCursorInExcludedPath c ex
@@ -148,7 +154,7 @@ def collapse (fs : List (Str × Json)) : List (Str × Json) :=
 
 mutual
 /-- The recursive walk of `obfuscateJSON`, with the exclusion test `E` on cursors as a parameter
-    (`E = modelExcl excludedPaths` is the code as it is). -/
+    (`E = modelExcl excludedPaths` is the code). -/
 def obfWith (H : Str → Str) (E : Str → Bool) (cursor : Str) : Json → Json
   | .arr xs =>
     if E cursor then .arr xs
